@@ -14,7 +14,11 @@ RULE = ("call chains of depth 1–5 with one fault planted at a generator-known 
         "redeclares a callee-local name, calls again, displays every object and (sometimes) reads 其 in the program body (error 48); "
         "three hand-written programs head the stream; a third of the programs end with one more, uncaught fault (1/0, undefined name, 抛出, "
         "a call of a failing method) after the display of a marker: when the spec says the marker was reached and the program failed, the "
-        "chain of the rendered error must be the generator's ground truth (only the calls active THEN). stream exc-modules: further programs of the same kind with a closed set of their methods / types moved into an imported module file (two files through LoadFile; Go = evaluator model on the whole answer incl. the location chain with module names, Go = spec semantics of the one-file program on result and trace). Non-trivial = the fault was raised below the handler's depth or not handled at all.")
+        "chain of the rendered error must be the generator's ground truth (only the calls active THEN). stream exc-modules: further programs of the same kind with a closed set of their methods / types moved into an imported module file (two files through LoadFile; Go = evaluator model on the whole answer incl. the location chain with module names, Go = spec semantics of the one-file program on result and trace). Non-trivial = the fault was raised below the handler's depth or not handled at all. "
+        "Stream `throw-edge` (props/edges.py, 150 programs of 2–4 probes): 抛出 of a name that holds a number / text / list / method / object / 空 / "
+        "nothing, of a type without constructor and without 内容 (caught by its own name only), of 异常 with other arguments than one text; "
+        "拦截 of a name that is undefined or holds something else (matches nothing), two to four handlers in any order, a numeral where the "
+        "type's name belongs — before the matching handler (the run ends there) and after it (never looked at).")
 ASSUMPTIONS = ["the message text of runtime faults is the implementation's (model prints ‹rt:code›; compared modulo that)"]
 PARTIAL = "reading 其内容 of a runtime fault is 'unspecified' in the spec semantics (message text is not part of the property)"
 
@@ -68,3 +72,10 @@ def run(ctx):
     # boundary on its way to the handler, the caller's module is current again afterwards
     more = [g.exc_program() for _ in range(ctx.n(700, 20000))]
     progs.run_split_stream(ctx, 'exc-modules', more, nontrivial=lambda src, go: '层2' in src or '拦截' not in src)
+    # 抛出 / 拦截 of names that are no types, no names at all; order of handlers — props/edges.py
+    from props import edges
+    st = {}
+    ts = edges.throw_programs(ctx.rng, ctx.n(150, 6000), st)
+    progs.run_stream(ctx, 'throw-edge', ts, nontrivial=lambda src, go: True)
+    for k, v in sorted(st.items()):
+        ctx.count('throw-edge:gen:' + k, v)
